@@ -41,7 +41,7 @@ CLAIMS = {
             'design_ref': 'DESIGN.md 6/C12', 'note': TRUST, 'technique': TECH},
     'C13': {'text': 'From the expected rows of the index channel (integer-valued data of every dtype) TLC recomputes min, max and consecutive differences in exact integer arithmetic and compares with the decoded INDEX-MIN/MAX/SPACING/DIRECTION, including user-supplied values, windows and write-write histories.',
             'design_ref': 'DESIGN.md 6/C13', 'note': TRUST, 'technique': TECH},
-    'C14': {'text': 'Histories run in one process (other files built and written first, names reused with other origin/copy/type/value, compatibility mode entered and left, the same object written twice, mutation after a write) are compared by TLC with a fresh process that builds the final Canon alone: equal Canon and data => equal bytes (and equal outcome). TLC checks the implementation-shaped WriteHistory model (everything kept from one write to the next: caches, derived dtype, derived index bounds, guessed codes, counts) exhaustively up to 5 (thorough 7) operations and generates histories from it (simulation + exhaustive enumeration of a small alphabet) that are replayed on the real objects, each followed by its fresh process; projection drift is reported. The DerivedDefaults model (defaults the library fills into the user\'s own attributes at a write - LONG-NAME, DIMENSION, ELEMENT-LIMIT, parameter DIMENSION - and has to tell from the user\'s values at the next write) is checked exhaustively up to 6 (thorough 8) operations and bound the same way.',
+    'C14': {'text': 'Histories run in one process (other files built and written first, names reused with other origin/copy/type/value, compatibility mode entered and left, the same object written twice, mutation after a write) are compared by TLC with a fresh process that builds the final Canon alone: equal Canon and data => equal bytes (and equal outcome). TLC checks the implementation-shaped WriteHistory model (everything kept from one write to the next: caches, derived dtype, derived index bounds, guessed codes, counts) exhaustively up to 5 (thorough 7) operations and generates histories from it (simulation + exhaustive enumeration of a small alphabet) that are replayed on the real objects, each followed by its fresh process; projection drift is reported. The DerivedDefaults model (defaults the library fills into the user\'s own attributes at a write - LONG-NAME, DIMENSION, ELEMENT-LIMIT, parameter DIMENSION - and has to tell from the user\'s values at the next write) is checked exhaustively up to 6 (thorough 10) operations and bound the same way.',
             'design_ref': 'DESIGN.md 6/C14', 'note': TRUST, 'technique': TECH},
     'C17': {'text': 'The flag is modelled as a save/restore stack; after every event the observed global flag must equal the model (normal exit, exit by exception, nested, decorator). TLC derives breaches from Canon (names, header id, set identifier, enumerated values) and from the data (signed integers; generator-claimed: channel/frame cardinality, non-uniform index) and forbids a successful write inside the mode; outside it the same inputs must be accepted.',
             'design_ref': 'DESIGN.md 6/C17', 'note': TRUST, 'technique': TECH},
